@@ -256,11 +256,13 @@ PROPS = {
         "rule": "well-formed documents of all seven formats with one known token replaced by garbage / an out-of-range number: the "
                 "reported line must be the token's line and the column must lie on the token; every syntax error of every mutated "
                 "document must lie inside the input (1 <= line <= lines+1, 1 <= column <= length of that line + 1); model and code must "
-                "agree on every error location of the DIMACS family and solver logs",
+                "agree on every error location of the DIMACS family and solver logs; binary AIGER: a symbol-table / comment token "
+                "corrupted behind an and-gate section that contains 0x0A bytes (delta 10, two-byte deltas ending in 0x0A): expected "
+                "line = 1 + LF bytes before the token",
         "theorems_note": "Props/C08.v: column formula of give_up*, line_at_offset; end to end for the DIMACS family and solver logs: loc_ok for "
-                         "every syntax error of every admissible run, bounds, executable loc_spec, pinned exception",
-        "assumes": ["AIGER/BTOR2 locations: model = code (pa stream) + location oracle, theorems pending (partial)",
-                    "known finding K1 (binary AIGER and-gate bytes 0x0A)"],
+                         "every syntax error of every admissible run, bounds, executable loc_spec, pinned exception; end to end for "
+                         "AIGER (ascii and binary) and BTOR2: loc_ok and the exact position (line_col_of) of every syntax error",
+        "assumes": ["'on the offending token' (which position is reported): corruption oracle + model = code (pa stream)"],
     },
     "C03": {
         "streams": [
